@@ -510,6 +510,11 @@ def check(ctx):
     rule_take(ctx)
     rule_reindex(ctx)
     rule_reflected_ops(ctx)
+    # Dataset.interp_axis hands the weights of _interp_internal_get_weights to every variable (rules shared with C18)
+    from . import c18
+    from ..report import Renamed
+    ctx.rule('R8', 'interpolation weights behind Dataset.interp_axis (shared with C18)', 1)
+    c18.rule_weights(Renamed(ctx, {'*': 'R8'}))
     ctx.not_decided += ['value equality with the per-variable result', 'Dataset.__eq__ / copy semantics']
     ctx.trusted += ['np.take(values, indices, axis=) semantics']
     return EXPLANATION
